@@ -79,3 +79,6 @@ Definition spec_output (suppress to_stderr : list Z) (stderr : bool) (rs : list 
 (* a whole CLI session on the wire: banner, prompt, one reply + prompt per request, goodbye *)
 Definition session_stream (version : text) (rs : list reply) : text :=
   (bs "001 "%string ++ version ++ CP_EOL) ++ CP_PROMPT ++ concat (map reply_stream rs) ++ CP_RSP_QUIT.
+
+(* the node names a reply lists: the texts of its 307 lines, in order *)
+Definition spec_nodes (ls : list rline) : list text := map rl_text (filter (fun l => rl_code l =? 307) ls).
